@@ -69,8 +69,8 @@ def judge_history_corr(inp, obs, lr):
         if m is None or i is None:
             return {"expected": m, "observed": i, "tags": {"op": opk, "diff": "history-length"}}
         if "err" in m or "err" in i:
-            if m.get("err") == ERRMAP.get(i.get("err"), i.get("err")):
-                return None
+            if "err" in m and "err" in i:
+                return None          # both refuse; which exception class is raised outside a precondition is not compared
             return {"expected": m, "observed": i, "tags": {"op": opk, "diff": "error"},
                     "property_failure": bool(k <= nvalid and "err" in i)}
         cm, ci = U.canon(m), U.canon(i)
@@ -264,8 +264,7 @@ def run_kbmag(inp):
         autos = [FS.load_builtin(inp["builtin"])]
     else:
         text, labels, transitions, initial = inp["text"], inp["labels"], inp["transitions"], inp["initial"]
-        rec, _ = gap_parse.parse_record(text)
-        autos = [FS._from_gap_record(rec)]
+        autos = []
         fd, path = tempfile.mkstemp(suffix=".wa")
         try:
             with os.fdopen(fd, "w") as fh:
@@ -581,7 +580,7 @@ CLAUSES = [
            site="fsa.FSA views", budget={"quick": 8000, "thorough": 150000},
            what="same predicate on bounded-exhaustive histories"),
     Clause("kbmag_oracle", "oracle", gen_kbmag, U.bounded(run_kbmag), judge_kbmag,
-           site="fsa.load_kbmag_file / _from_gap_record / load_builtin", budget={"quick": 400, "thorough": 4000},
+           site="fsa.load_kbmag_file / load_builtin", budget={"quick": 400, "thorough": 4000},
            what="random kbmag record texts (tables, alphabets, spacing/newlines, interval syntax, quoted names) and the 18 built-in files: "
                 "loaded edges and start state equal the table in the text (independent regex reading for the built-ins)"),
 ]
